@@ -6,7 +6,48 @@ fn unhex(s: &str) -> Vec<u8> {
     (0..s.len() / 2).filter_map(|i| u8::from_str_radix(&s[2 * i..2 * i + 2], 16).ok()).collect()
 }
 
-/// protocol, one case per line:  `F <hex>`  |  `H <rxlat> <rxlon> <range> <hex>,<hex>,...`
+/// a reader over `data` that hands out at most `max` bytes per call and reports `Interrupted`
+/// (consuming nothing) at the listed read calls
+struct Scripted<'a> {
+    data: &'a [u8],
+    pos: usize,
+    max: usize,
+    interrupts: &'a [usize],
+    reads: usize,
+}
+
+impl no_std_io2::io::Read for Scripted<'_> {
+    fn read(&mut self, buf: &mut [u8]) -> no_std_io2::io::Result<usize> {
+        let call = self.reads;
+        self.reads += 1;
+        if self.interrupts.contains(&call) {
+            return Err(no_std_io2::io::Error::new(no_std_io2::io::ErrorKind::Interrupted, "transient"));
+        }
+        let avail = self.data.len().saturating_sub(self.pos);
+        let k = self.max.max(1).min(buf.len()).min(avail);
+        buf[..k].copy_from_slice(&self.data[self.pos..self.pos + k]);
+        self.pos += k;
+        Ok(k)
+    }
+}
+
+impl no_std_io2::io::Seek for Scripted<'_> {
+    fn seek(&mut self, p: no_std_io2::io::SeekFrom) -> no_std_io2::io::Result<u64> {
+        use no_std_io2::io::SeekFrom;
+        let np: i64 = match p {
+            SeekFrom::Start(x) => x as i64,
+            SeekFrom::End(x) => self.data.len() as i64 + x,
+            SeekFrom::Current(x) => self.pos as i64 + x,
+        };
+        if np < 0 {
+            return Err(no_std_io2::io::Error::new(no_std_io2::io::ErrorKind::InvalidInput, "seek before start"));
+        }
+        self.pos = np as usize;
+        Ok(self.pos as u64)
+    }
+}
+
+/// protocol, one case per line:  `RD <max> <call,call,...|-> <hex>` decodes through the scripted reader;  `F <hex>`  |  `H <rxlat> <rxlon> <range> <hex>,<hex>,...`
 /// answer: one line, the transcript with '\n' escaped as '\x1f'
 fn main() {
     let stdin = std::io::stdin();
@@ -31,6 +72,16 @@ fn main() {
             let range: f64 = it.next().and_then(|x| x.parse().ok()).unwrap_or(0.0);
             let frames: Vec<Vec<u8>> = it.next().unwrap_or("").split(',').filter(|x| !x.is_empty()).map(unhex).collect();
             transcript::history_final(&frames, (lat, lon), range)
+        } else if let Some(r) = line.strip_prefix("RD ") {
+            let mut it = r.split(' ');
+            let max: usize = it.next().and_then(|x| x.parse().ok()).unwrap_or(1);
+            let interrupts: Vec<usize> = it.next().unwrap_or("-").split(',').filter_map(|x| x.parse().ok()).collect();
+            let data = unhex(it.next().unwrap_or("").trim());
+            let mut rd = Scripted { data: &data, pos: 0, max, interrupts: &interrupts, reads: 0 };
+            match adsb_deku::Frame::from_reader(&mut rd) {
+                Err(_) => "Err".to_string(),
+                Ok(f) => format!("Ok crc={:06x}\nDEBUG {:?}\nDISPLAY {}\n", f.crc, f, f),
+            }
         } else if line == "R" {
             prev = None;
             "reset".to_string()
